@@ -7,7 +7,8 @@
 From Coq Require Import ZArith List Bool Sorted.
 From Mesa Require Import Generated.Tables Model.Devs Model.DevsSpec
   Proofs.DevsProofs Proofs.DevsOrderProofs Proofs.DevsOnceProofs Proofs.DevsLiveProofs Proofs.DevsAtomicProofs
-  Proofs.DevsTopProofs Proofs.DevsTop14Proofs.
+  Proofs.DevsTopProofs Proofs.DevsTop14Proofs Model.Heap Proofs.HeapProofs Proofs.DevsHeapProofs.
+From Coq Require Import Permutation.
 Import ListNotations.
 Open Scope Z_scope.
 
@@ -241,6 +242,56 @@ Theorem C14_peek_is_run_order : forall cfg fuel endt st st' l, inv st -> plain (
   execs l = filter (fun e => e_time e <=? endt) (peak_ahead (length (s_events st)) (s_events st)).
 Proof. exact peek_is_run_order. Qed.
 Print Assumptions C14_peek_is_run_order.
+
+(* ---------------------------------------------------------------- heapq (heapq_model_laws) *)
+(* Model/Heap.v transcribes CPython's heapq (heappush/heappop/_siftdown/_siftup on arrays; its Examples reproduce
+   arrays observed on the real heapq).  For a strict weak order - which SimulationEvent.__lt__ is - it satisfies
+   the priority-queue laws: contents are preserved, the heap shape is kept, heappop returns a least element. *)
+Theorem C14_heapq_push_laws : forall h x,
+  Permutation (x :: h) (heappush event ev_ltb h x) /\
+  (heap_ok event ev_ltb h -> heap_ok event ev_ltb (heappush event ev_ltb h x)).
+Proof. exact (fun h x => conj (heappush_perm event ev_ltb h x)
+                              (heappush_ok event ev_ltb ev_ltb_irrefl ev_ltb_trans ev_ltb_total_weak h x)). Qed.
+Print Assumptions C14_heapq_push_laws.
+
+Theorem C14_heapq_pop_laws : forall h x h', heap_ok event ev_ltb h -> heappop event ev_ltb h = Some (x, h') ->
+  Permutation h (x :: h') /\ heap_ok event ev_ltb h' /\ forall y, In y h' -> ev_ltb y x = false.
+Proof. exact (fun h x h' Hok Hp => conj (heappop_perm event ev_ltb h x h' Hp)
+   (conj (heappop_ok event ev_ltb ev_ltb_irrefl ev_ltb_trans ev_ltb_total_weak h x h' Hok Hp)
+         (heappop_min event ev_ltb ev_ltb_irrefl ev_ltb_trans ev_ltb_total_weak h x h' Hok Hp))). Qed.
+Print Assumptions C14_heapq_pop_laws.
+
+(* Hence the abstraction made by Model/Devs.v is sound: for ANY program of pushes (of events with distinct ids) and
+   pops, the heap array returns exactly the events that the list ordered by the key returns (ordered insertion /
+   take the head), pop by pop. *)
+Theorem C14_heap_refines_sorted_list : forall ops,
+  NoDup (flat_map (fun o => match o with Push e => [e_uid e] | Pop => [] end) ops) ->
+  run_heap [] ops = run_sorted [] ops.
+Proof. exact heap_refines_sorted_list. Qed.
+Print Assumptions C14_heap_refines_sorted_list.
+
+Theorem C14_heap_refines_pop : forall heap sorted, refines heap sorted ->
+  match heappop event ev_ltb heap, sorted with
+  | None, [] => True
+  | Some (x, heap'), y :: sorted' => x = y /\ refines heap' sorted'
+  | _, _ => False
+  end.
+Proof. exact refines_pop. Qed.
+Print Assumptions C14_heap_refines_pop.
+
+Theorem C14_heap_refines_push : forall heap sorted e, refines heap sorted ->
+  ~ In (e_uid e) (map e_uid sorted) -> refines (heappush event ev_ltb heap e) (ev_insert e sorted).
+Proof. exact refines_push. Qed.
+Print Assumptions C14_heap_refines_push.
+
+(* the array of defect #20: pushing times 1,3,2,5,4 leaves the heap array in the order 1,3,2,5,4 (which the
+   unrepaired peak_ahead returned), while the key order is 1,2,3,4,5 *)
+Example C14_heap_array_example :
+  let evs := map (fun t => mk_event t PDefault t t 0 false []) [8; 24; 16; 40; 32] in
+  map e_time (fold_left (heappush event ev_ltb) evs []) = [8; 24; 16; 40; 32] /\
+  map e_time (fold_left (fun l e => ev_insert e l) evs []) = [8; 16; 24; 32; 40] /\
+  run_heap [] (map Push evs ++ [Pop; Pop; Pop]) = run_sorted [] (map Push evs ++ [Pop; Pop; Pop]).
+Proof. cbv zeta. repeat split; vm_compute; reflexivity. Qed.
 
 (* ---------------------------------------------------------------- non-vacuity *)
 (* DEVSimulator: events 1..5 pushed in the order of defect #20 (times 1,3,2,5,4), a tie in time and priority
